@@ -83,11 +83,23 @@ def run(ctx):
         d = int(rng.integers(6, 12)) if metric in ("jaccard", "hellinger") else int(rng.integers(2, 6))
         nb = int(rng.integers(1, 4))
         k = int(rng.integers(3, 9))
+        if t % 6 == 5:
+            nb = int(rng.integers(1, 3))
         mname = "euclidean" if metric == "user-threshold" else metric
+        boundary = None
+        if t % 6 == 5:
+            # size thresholds: the stacked data reaches exactly n_neighbors (or one less / one more) samples with the first batch
+            k = int(rng.integers(6, 12))
+            n1 = int(rng.integers(3, k - 2))
+            boundary = k - n1 + [0, 1, -1][(t // 6) % 3]
+            if placement == "far":
+                placement = "near"
         X1 = make_data(rng, mname, n1, d)
         batches = []
         for b in range(nb):
             m = int(rng.integers(k + 2, 16)) if placement == "far" else int(rng.integers(1, 12))
+            if boundary is not None and b == 0:
+                m = boundary
             if placement == "duplicates":
                 B = X1[rng.integers(0, n1, m)].copy()
             elif placement == "far" and mname in ("euclidean", "manhattan"):
@@ -123,8 +135,19 @@ def run(ctx):
         try:
             m = umap.UMAP(**kw).fit(X1)
             old_knn = None
-            for B in batches:
+            for bi, B in enumerate(batches):
                 m.update(B)
+                if boundary is not None and bi + 1 < len(batches):
+                    # at a size threshold every intermediate state is compared, and used
+                    part = np.vstack([X1] + batches[: bi + 1])
+                    fp = umap.UMAP(**kw).fit(part)
+                    dm, at_ = graph_diff(m.graph_, fp.graph_)
+                    if m.graph_.shape != fp.graph_.shape or dm != 0.0:
+                        ctx.violation("graph", f"graph after update {bi + 1} ({part.shape[0]} samples, n_neighbors={k}) differs from the fresh "
+                                               f"fit's by {dm} at {at_}", case)
+                    o_ = m.transform((part[:3] + 0.01).astype(np.float32))
+                    if o_.shape != (3, 2):
+                        ctx.violation("usable-transform", f"transform after update {bi + 1} returned shape {o_.shape}", case)
             stacked = np.vstack([X1] + batches)
             fresh = umap.UMAP(**kw).fit(stacked)
         except Exception as e:  # noqa
